@@ -326,11 +326,18 @@ func (w *World) recordSigs(infos []*OutputInfo, sigs cashu.BlindedSignatures) []
 	return out
 }
 
-func (w *World) lnFacts(since int) []any {
+func (w *World) lnFacts(since int) []any { return w.lnFactsFor(since, "") }
+
+// lnFactsFor lists the backend calls made since `since`, restricted to one payment hash when
+// operations run concurrently.
+func (w *World) lnFactsFor(since int, hash string) []any {
 	calls := w.Net.CallsSince(since)
 	out := []any{}
 	for _, c := range calls {
 		if c.Node != w.Node.Name {
+			continue
+		}
+		if hash != "" && w.Conc && c.Hash != hash {
 			continue
 		}
 		a, bg, _ := amtFacts(c.Amount)
@@ -392,6 +399,10 @@ func finish(r map[string]any, err error, panicked bool, msg string) map[string]a
 
 // Exec runs one abstract operation on the real mint and records the event.
 func (w *World) Exec(op Op) *Event {
+	if w.Conc {
+		w.Big.Lock()
+		defer w.Big.Unlock()
+	}
 	switch op.Op {
 	case "mintquote":
 		return w.opMintQuote(op)
@@ -525,7 +536,7 @@ func (w *World) opPollMint(op Op) *Event {
 	if err == nil && !pan {
 		r["st"] = q.State.String()
 	}
-	return w.emit("pollmint", map[string]any{"q": op.Q, "lnerr": op.LnErr, "ln": w.lnFacts(since)}, r)
+	return w.emit("pollmint", map[string]any{"q": op.Q, "lnerr": op.LnErr, "ln": w.lnFactsFor(since, w.mqHash(op.Q))}, r)
 }
 
 func (w *World) opMint(op Op) *Event {
@@ -599,7 +610,7 @@ func (w *World) opMint(op Op) *Event {
 	if err == nil && !pan {
 		r["sigs"] = w.recordSigs(infos, sigs)
 	}
-	return w.emit("mint", map[string]any{"q": op.Q, "outs": facts, "ovf": ovf, "sig": sigClass, "lnerr": op.LnErr, "ln": w.lnFacts(since)}, r)
+	return w.emit("mint", map[string]any{"q": op.Q, "outs": facts, "ovf": ovf, "sig": sigClass, "lnerr": op.LnErr, "ln": w.lnFactsFor(since, w.mqHash(op.Q))}, r)
 }
 
 func (w *World) buildInputs(specs []InSpec) (cashu.Proofs, []any) {
@@ -711,7 +722,7 @@ func (w *World) opMelt(op Op) *Event {
 		r["st"] = q.State.String()
 		r["pre"] = w.preClass(qi, q.Preimage)
 	}
-	return w.emit("melt", map[string]any{"q": op.Q, "ins": inFacts, "ln": w.lnFacts(since), "lnerr": op.LnErr}, r)
+	return w.emit("melt", map[string]any{"q": op.Q, "ins": inFacts, "ln": w.lnFactsFor(since, w.lqHash(op.Q)), "lnerr": op.LnErr}, r)
 }
 
 func (w *World) preClass(qi *MeltQuoteInfo, pre string) string {
@@ -745,7 +756,7 @@ func (w *World) opPollMelt(op Op) *Event {
 		r["st"] = q.State.String()
 		r["pre"] = w.preClass(qi, q.Preimage)
 	}
-	return w.emit("pollmelt", map[string]any{"q": op.Q, "ln": w.lnFacts(since)}, r)
+	return w.emit("pollmelt", map[string]any{"q": op.Q, "ln": w.lnFactsFor(since, w.lqHash(op.Q))}, r)
 }
 
 // opCheckState: Ys entries are secret ids, output ids (their secret), "unknown", "malformed", "empty".
@@ -948,4 +959,18 @@ func (w *World) opRestart(op Op) *Event {
 		return w.load(op.Rotate, op.Fee)
 	})
 	return w.emit("restart", map[string]any{"rotate": op.Rotate, "fee": int(op.Fee)}, finish(map[string]any{}, err, pan, msg))
+}
+
+func (w *World) mqHash(id string) string {
+	if q := w.Reg.MintQ[id]; q != nil {
+		return q.Hash
+	}
+	return "-"
+}
+
+func (w *World) lqHash(id string) string {
+	if q := w.Reg.MeltQ[id]; q != nil {
+		return q.Hash
+	}
+	return "-"
 }
